@@ -752,6 +752,10 @@ func batcherMonitor(lines, outs []string, m *Model) []Violation {
 		vs = append(vs, Violation{"C04", "per-transaction counts reported by batches do not add up to the records plus counted drops (" + v + ")", ""})
 		vs = append(vs, Violation{"C02", "batch transaction counts do not match what the batcher announces as the transaction total (ledger would wedge) (" + v + ")", ""})
 	}
+	if f, ok := kv["seenfirst"]; ok && !f {
+		vs = append(vs, Violation{"C01", "a batch went to a worker while a COMMIT received earlier had not been handed to the progress tracker: a later transaction can be reported written, and acknowledged, ahead of it (" + v + ")", ""})
+		vs = append(vs, Violation{"C04", "the seen list was not handed over before a batch was dispatched (ledger contract E3) (" + v + ")", ""})
+	}
 	if !kv["routing"] {
 		vs = append(vs, Violation{"C05", "batch routed to a worker other than the one the routing method dictates (" + v + ")", ""})
 	}
